@@ -8,7 +8,7 @@ import sys
 from vlib import core, engine_corr
 
 PROPERTY = "C01"
-LEAN_MODS = ["AtomicaProofs.Properties.C01"]
+LEAN_MODS = ["AtomicaProofs.Properties.C01", "AtomicaProofs.Properties.C01Step"]
 THEOREMS = [
     "Atomica.C01.timed_transfer_total",   # a timed link delivers exactly its total for any row-count mismatch
     "Atomica.C01.balance_normal",
@@ -17,6 +17,13 @@ THEOREMS = [
     "Atomica.C01.step_balance",           # per compartment: next = current - recorded out + recorded in
     "Atomica.C01.junction_unchanged",
     "Atomica.C01.update_total",           # grand total changes only by source outflow
+    # composition with C02 (flows_facts) and C04 (balance_chain): no hypothesis on the flow left
+    "Atomica.C01.passthrough_of_rowwise",
+    "Atomica.C01.step_good",
+    "Atomica.C01.step_balance_model",     # one model step, per compartment, any well-formed net, any parameter values
+    "Atomica.C01.step_junction_passthrough",
+    "Atomica.C01.step_total",             # one model step, grand total
+    "Atomica.C01.run_total",              # every reachable state (induction over the number of steps)
 ]
 TRUSTED = ["floating-point cancellation in x - out + in (the theorem is exact; the code is compared to the exact step to 1e-11 relative)", "overflow to inf not modelled"]
 RULE = "generated models (vlib.genfw.random_spec; regimes calibrated/extreme/boundary) run by the real Model; every step compared with one exact model step; non-trivial = model has a junction, timed compartment, transfer, source, active rescale, zero stock or negative parameter"
